@@ -117,6 +117,13 @@ def gen_project(rng, n_docs=None, amsmath=False):
         other = names[rng.randrange(n)]
         parts = [f"# Title {i}\n", f"(tgt{i})=\n## Section {i}\n", f"Para with [link]({other}.md) and [anchor]({other}.md#section-{names.index(other)}) "
                  f"and {{ref}}`tgt{rng.randrange(n)}` and [missing](nowhere{i}.md) and {{doc}}`{other}`.\n"]
+        # cross-document links in every spelling the renderer classifies at READ time, to a document that sorts earlier
+        # and to one that sorts later than this one (with -jN they are read by other workers)
+        for tgt in (sorted(names)[rng.randrange(max(1, sorted(names).index(nm) + 1))], sorted(names)[rng.randrange(sorted(names).index(nm), n)]):
+            k = names.index(tgt)
+            parts.append(f"[ext]({tgt}.md) [noext]({tgt}) [noext-anchor]({tgt}#section-{k}) []({tgt}#section-{k}) [ext-anchor]({tgt}.md#section-{k}) "
+                         f"[]({tgt}.md#section-{k}) <project:{tgt}.md> <project:{tgt}.md#section-{k}> [bad-anchor]({tgt}#nope) "
+                         f"[dl](path:{tgt}.md) <path:inc_part.md> {{doc}}`{tgt}` {{ref}}`tgt{k}` {{download}}`{tgt}.md` [](tgt{k}) [t](#tgt{k})\n")
         k = rng.randrange(12)
         if k == 0:
             parts.insert(0, "---\nmyst:\n  enable_extensions: [dollarmath, html_image]\n  heading_anchors: 1\n---\n")
